@@ -142,13 +142,14 @@ def gen_to_list(rng):
     for _ in range(rng.randint(1, 4)):
         r = rng.random()
         rows.append([rng.choice([0, 1, 1, 0, 2, -1]) if r < 0.3 else rng.choice([0, 1]) for _ in range(n)])
-    return {"vars": [vjson(v) for v in vs], "rows": rows}
+    return {"vars": [vjson(v) for v in vs], "rows": rows, "skip": rng.choice([None, None, True, False])}
 
 def run_to_list(c):
     vs = vars_from_json(c["vars"])
     a2 = pnd.boolean_ndarray(c["rows"], variables=vs)
     a1 = pnd.boolean_ndarray(c["rows"][0], variables=vs)
-    return vs, a2.to_list(), a1.to_list()
+    kw = {} if c.get("skip") is None else {"skip_virtual_variables": c["skip"]}      # documented flag; the answer is the same
+    return vs, a2.to_list(**kw), a1.to_list(**kw)
 
 def oracle_to_list(c):
     vs, l2, l1 = run_to_list(c)
@@ -205,11 +206,28 @@ def gen_Ab(rng):
     ix = gen_vars(rng, nr, nr) if rng.random() < 0.5 else []
     if len(ix) != nr:
         ix = []
-    return {"nr": nr, "nc": nc, "m": m, "vars": [vjson(v) for v in vs], "index": [vjson(v) for v in ix]}
+    c = {"nr": nr, "nc": nc, "m": m, "vars": [vjson(v) for v in vs], "index": [vjson(v) for v in ix]}
+    flat = [x for r in m for x in r]
+    if flat and rng.random() < 0.4:
+        # the polyhedron is an array: it may be stored in a narrower integer type, and it may be written to after A was
+        # read once - A and b are those of the polyhedron as it is when they are asked for
+        fits = [d for d, lim in (("int8", 2 ** 7), ("int16", 2 ** 15), ("int32", 2 ** 31)) if all(-lim <= x < lim for x in flat)]
+        c["dtype"] = rng.choice(fits + ["int64"])
+        if nr and rng.random() < 0.7:
+            c["edit"] = [rng.randrange(nr), rng.randrange(nc), rng.choice([0, 1, -1, 5, -7])]
+    return c
 
 def run_Ab(c):
     m = np.array(c["m"], dtype=np.int64).reshape(c["nr"], c["nc"])
-    p = pnd.ge_polyhedron(m, variables=vars_from_json(c["vars"]), index=vars_from_json(c["index"]))
+    if c.get("dtype"):
+        dt = getattr(np, c["dtype"])
+        p = pnd.ge_polyhedron(m.astype(dt), variables=vars_from_json(c["vars"]), index=vars_from_json(c["index"]), dtype=dt)
+    else:
+        p = pnd.ge_polyhedron(m, variables=vars_from_json(c["vars"]), index=vars_from_json(c["index"]))
+    if c.get("edit"):
+        _ = p.A, p.b, p.to_linalg()              # asked once before the write
+        i, j, v = c["edit"]
+        p[i, j] = v
     A, bb = p.A, p.b
     A2, b2 = p.to_linalg()
     return p, A, bb, A2, b2
@@ -240,7 +258,10 @@ def vnd_t(arr, it):
 
 def term_Ab(c, p, A, bb):
     def t(it):
-        return (f"({c['nr']}%nat, {c['nc']}%nat, {zm(c['m'])}, {vars_t(vars_from_json(c['vars']), it)}, {vars_t(vars_from_json(c['index']), it)}, "
+        m = [list(r) for r in c["m"]]
+        if c.get("edit"):                       # the matrix the polyhedron holds when A and b are asked for
+            i, j, v = c["edit"]; m[i][j] = v
+        return (f"({c['nr']}%nat, {c['nc']}%nat, {zm(m)}, {vars_t(vars_from_json(c['vars']), it)}, {vars_t(vars_from_json(c['index']), it)}, "
                 f"({vnd_t(p, it)}, {vnd_t(A, it)}, {zl(bb.tolist())}))")
     return t
 
